@@ -2,6 +2,7 @@
 package c03
 
 import (
+	"archive/zip"
 	"bytes"
 	"crypto"
 	"fmt"
@@ -49,7 +50,7 @@ func TestMain(m *testing.M) {
 	os.Exit(code)
 }
 
-var formats = []string{"pe", "msi", "jar", "jar-hostile", "ps", "xap", "vsix", "appx", "apk", "macho", "deb", "cab", "appmanifest", "rpm"}
+var formats = []string{"pe", "msi", "jar", "jar-hostile", "appx-hostile", "vsix-hostile", "apk-hostile", "ps", "xap", "vsix", "appx", "apk", "macho", "deb", "cab", "appmanifest", "rpm"}
 
 func dirList(dir string) string {
 	ents, _ := os.ReadDir(dir)
@@ -94,6 +95,30 @@ func TestC03_Payload(t *testing.T) {
 						a = arts.GenJARLayout(t, false)
 						hostile = false
 					}
+				} else if strings.HasSuffix(f, "-hostile") {
+					// leading or embedded non-archive bytes in the other ZIP-based types
+					format = strings.TrimSuffix(f, "-hostile")
+					arts.APKBigMembers = false
+					a = arts.Gen(t, format)
+					zr, err := zip.NewReader(bytes.NewReader(a.Data), int64(len(a.Data)))
+					if err != nil {
+						t.Skip("harness: " + err.Error())
+					}
+					k := rapid.IntRange(0, len(zr.File)).Draw(t, "gap_before_member")
+					gap := bytes.Repeat([]byte{byte(rapid.SampledFrom([]int{0, 0x50, 0xff}).Draw(t, "gap_fill"))}, rapid.SampledFrom([]int{1, 4, 50, 4096}).Draw(t, "gap_len"))
+					data, ok := arts.ZipInsertGap(a.Data, k, gap)
+					if !ok {
+						t.Skip("harness: archive layout not supported by ZipInsertGap")
+					}
+					if _, err := zip.NewReader(bytes.NewReader(data), int64(len(data))); err != nil {
+						t.Fatalf("harness: archive/zip refuses the archive after gap insertion: %v", err)
+					}
+					cls := "gap"
+					if k == 0 {
+						cls = "prefix"
+					}
+					a = &arts.Artifact{Format: a.Format, SigType: a.SigType, Name: a.Name, Data: data, Classes: append(append([]string{}, a.Classes...), cls, fmt.Sprintf("gap-before-member:%d/%d", k, len(zr.File))), Generated: true}
+					hostile = true
 				} else {
 					arts.MachOTightHeaders = true
 					a = arts.Gen(t, format)
